@@ -6,6 +6,9 @@
 import PyModeS.Properties.C13
 import PyModeS.Tie.Bds61
 import PyModeS.Tie.Bds62
+
+-- symbolic execution of long generated `do` blocks: generous but finite budget (proof times are seconds)
+set_option maxHeartbeats 1000000
 namespace PyModeS.C13Gen
 open PyModeS PyModeS.Py PyModeS.CRC PyModeS.C13
 
